@@ -105,7 +105,8 @@ def perturbations(case):
             if 0 <= j < len(nine) and nine[j] <= 4096:
                 yield ('gex-size%+d' % (nine[j] - S['gex']), 'Group exchange (%s) modulus sizes' % GEX, L, dict(S, gex=nine[j]))
     elif GEX in L['kex']:
-        for d in (+1024, -1024):
+        # (a server that hands out its nearest group whatever was asked for shows its size to the bit: moduli files list 2047-bit groups)
+        for d in (+1024, -1024) + ((-1, -7, +1) if S.get('gex_style') == 'roundup' else ()):
             if S['gex'] + d >= (2048 if S.get('gex_style') == 'openssh' else 1024):      # an OpenSSH-style server never hands out less than 2048
                 yield ('gex-size%+d' % d, 'Group exchange (%s) modulus sizes' % GEX, L, dict(S, gex=S['gex'] + d))
 
@@ -291,4 +292,4 @@ def run(ctx):
     ctx.map(bc)
     ctx.note(builtin_policy_cases=len(bc), builtin_policies=len(BUILTIN_POLICIES))
     return ctx.finish('exploration', 'Hypothesis peers (lists over database names, gss-* names, RFC names with = + / @; RSA / certificate / CA / GEX sizes; server and client role): -M, then -P on the same peer (text and JSON) and on every applicable single-attribute perturbation (add / add-front / remove / swap per list, host-key size, CA size, CA type, certificate host size, GEX modulus); all built-in policies against a peer configured as listed, with each optional host key',
-                      assumptions=['names are non-empty RFC 4251 names without leading/trailing blanks', 'size perturbations: +-1024 bits on the 2048/3072/4096 grid and -1 / -6 / +-8 bits'])
+                      assumptions=['names are non-empty RFC 4251 names without leading/trailing blanks', 'size perturbations: +-1024 bits on the 2048/3072/4096 grid and -1 / -6 / +-8 bits (group-exchange modulus of a round-up server: -1 / -7 / +1)'])
